@@ -345,7 +345,7 @@ fn call_sequences(src: &mut Src, st: &mut Stats, _env: &Env) -> CaseResult {
         (want, other) => {
             // the reference flags non-finite sums as unspecified; tolerate the recorded finding
             if let ImpOut::SearchErr(e) = other {
-                if e.is_parse && (crate::imp::reference_says_nonfinite(&combined, &dt) || e.detail.contains("valid number") || e.detail.contains("valid f64")) {
+                if e.is_parse && (crate::imp::reference_says_nonfinite(&combined, &dt) || ((combined.contains("sum(") || combined.contains("avg(")) && (e.detail.contains("valid number") || e.detail.contains("valid f64")))) {
                     return Ok(());
                 }
             }
